@@ -69,6 +69,19 @@ func c12Check(c MetricCase) (r evid.Result) {
 		}
 	}
 	nonCommutative := map[string]bool{"-": true, "/": true, "%": true, "^": true, ">": true, ">=": true, "<": true, "<=": true}
+	if datagen.CmpOpSet[m.Op] {
+		nanSide := false
+		for _, t := range c.Params.Steps() {
+			for _, side := range []*gen.Metric{m.L, m.R} {
+				if v, err := ev.At(side, t); err == nil {
+					for _, smp := range v.Vec {
+						nanSide = nanSide || math.IsNaN(smp.V)
+					}
+				}
+			}
+		}
+		r.Class(nanSide, "NaN-meets-a-comparison")
+	}
 	r.Class(properOverlap, "proper-overlap")
 	if res, err := ev.Eval(m, c.Params); err == nil {
 		unc, inexact := false, false
@@ -223,7 +236,11 @@ func c12Gen(t *rapid.T) MetricCase {
 	}
 	// Sometimes one side is itself a (parenthesised) division or modulo by a literal - 0 included,
 	// so that NaN values meet the outer operator.
-	if kind != "set" && rapid.IntRange(0, 3).Draw(t, "nested-nan") == 0 {
+	nestedOneIn := 4
+	if kind == "cmp" {
+		nestedOneIn = 2 // NaN against every comparison operator, on either side
+	}
+	if kind != "set" && rapid.IntRange(0, nestedOneIn-1).Draw(t, "nested-nan") == 0 {
 		wrap := func(side *gen.Metric, label string) *gen.Metric {
 			if side.Kind == "literal" || side.Kind == "vector" {
 				return side
